@@ -76,6 +76,7 @@ func init() {
 			safely(r, "ruleFWD", func() { ruleFWD(w, r, pf, []string{"pathAhead", "oldValues", "newValues", "strategy"}) })
 			ruleOptFwd(w, r, v2, "v2", "Option", func(fn *ssa.Function) bool { return patchSide(fn) || equalsSide(fn) || diffSide(fn) }, nil)
 			safely(r, "ruleHunkRaw", func() { ruleHunkRaw(w, r, v2, "v2") })
+			safely(r, "ruleRootPath", func() { ruleRootPath(w, r, v2, "v2") })
 			safely(r, "ruleCursor", func() { ruleCursor(w, r, v2, "v2") })
 			safely(r, "rulePathFresh", func() { rulePathFresh(w, r, v2, "v2") })
 			safely(r, "ruleKinds", func() { ruleKinds(w, r, v2) })
@@ -185,6 +186,7 @@ func init() {
 		Run: func(w *World, r *Report) {
 			safely(r, "rulePanic", func() { rulePanic(w, r, w.Pkg(pathV2)) })
 			safely(r, "ruleErrPropagate", func() { ruleErrPropagate(w, r, w.Pkg(pathV2), "v2", nil) })
+			safely(r, "ruleExplicitPanics", func() { ruleExplicitPanics(w, r, w.Pkg(pathV2), "v2") })
 			safely(r, "ruleRawArg", func() { ruleRawArg(w, r, w.Pkg(pathV2)) })
 			safely(r, "runCLI", func() { runCLI(w, r, "nopanic", "exit") })
 			r.Floor("R-PANIC", 150)
@@ -324,6 +326,7 @@ func init() {
 		Assumptions: commonAssumptions,
 		Run: func(w *World, r *Report) {
 			v2 := w.Pkg(pathV2)
+			safely(r, "ruleRootPath", func() { ruleRootPath(w, r, v2, "v2") })
 			safely(r, "ruleCursor", func() { ruleCursor(w, r, v2, "v2") })
 			safely(r, "ruleNoEmpty", func() { ruleNoEmpty(w, r, v2, "v2", "Remove", "Add") })
 			safely(r, "ruleOptFwd", func() { ruleOptFwd(w, r, v2, "v2", "Option", diffSide, nil) })
@@ -376,6 +379,7 @@ func init() {
 		Assumptions: commonAssumptions,
 		Run: func(w *World, r *Report) {
 			v2 := w.Pkg(pathV2)
+			safely(r, "ruleExplicitPanics", func() { ruleExplicitPanics(w, r, v2, "v2") })
 			safely(r, "ruleYamlTypes", func() { ruleYamlTypes(w, r, v2) })
 			safely(r, "ruleCodecRoutes", func() { ruleCodecRoutes(w, r, v2, "v2") })
 			safely(r, "ruleRenderIdentity", func() { ruleRenderIdentity(w, r, v2) })
